@@ -263,15 +263,21 @@ func Ops() []Op {
 		{"read-stl-language-and-code-page-codes", func(string) string {
 			var out strings.Builder
 			base := docData("stl-open-25-2")
-			for lc := 0; lc < 0x80; lc++ {
-				d := append([]byte{}, base...)
-				copy(d[14:16], fmt.Sprintf("%02X", lc))
-				s, err, pan := corpus.Read("stl", bytes.NewReader(d))
-				lang := ""
-				if s != nil && s.Metadata != nil {
-					lang = s.Metadata.Language
+			for lc := 0; lc < 0x100; lc++ {
+				for _, form := range []string{"%02X", "%02x"} { // hexadecimal digits in either case
+					code := fmt.Sprintf(form, lc)
+					if form == "%02x" && code == strings.ToUpper(code) {
+						continue
+					}
+					d := append([]byte{}, base...)
+					copy(d[14:16], code)
+					s, err, pan := corpus.Read("stl", bytes.NewReader(d))
+					lang := ""
+					if s != nil && s.Metadata != nil {
+						lang = s.Metadata.Language
+					}
+					fmt.Fprintf(&out, "LC %s: %v %v %q\n", code, err, pan, lang)
 				}
-				fmt.Fprintf(&out, "LC %02X: %v %v %q\n", lc, err, pan, lang)
 			}
 			for _, cpn := range []string{"437", "850", "860", "863", "865", "000", "   "} {
 				d := append([]byte{}, base...)
